@@ -135,7 +135,7 @@ func TestC16(t *testing.T) {
 	keptUndefined = nil
 	r := vf.NewRec("C16")
 	defer r.Finish(t)
-	guard.StartWatchdog(*vf.Out, "C16")
+	guard.StartWatchdog(*vf.Out, vf.Label("C16"))
 
 	for _, rf := range r.LoadReplays(t) {
 		var c caseC16
